@@ -41,9 +41,22 @@ BOXES = [(0.0, 0.0, 1.2, 1.2), (2.0, 2.0, 3.6, 3.3), (-1.0, -1.0, 5.0, 5.0), (1.
 SHAPES = [("polygon", (ring(0.3, 0.6, 0.5),)), ("line", ((PI, E_), (0.1, 0.7))), ("multipoint", ((2.3, 0.2), (0.0, 0.0))),
           ("polygon", (((-1.0, -1.0), (1.0, -1.0), (1.0, 1.0), (-1.0, 1.0), (-1.0, -1.0)),))]
 INERT_TYPES = {"point": ("M", "N"), "default": ("M", "E")}
+INF = float("inf")
+# an element whose coordinates are all infinite has no finite coordinate either
+INF_ELEM = {
+    "point": (INF, -INF),
+    "multipoint": ((INF, INF), (-INF, INF)),
+    "line": ((INF, INF), (-INF, INF), (INF, -INF)),
+    "ring": ((INF, INF), (-INF, INF), (INF, -INF), (INF, INF)),
+    "multiline": (((INF, INF), (-INF, INF)), ((INF, -INF), (INF, INF))),
+    "polygon": (((INF, INF), (-INF, INF), (INF, -INF), (INF, INF)),),
+    "multipolygon": ((((INF, INF), (-INF, INF), (INF, -INF), (INF, INF)),),),
+}
 
 
-def inert_elem(t):
+def inert_elem(t, kind=None):
+    if t == "I":
+        return INF_ELEM[kind]
     return None if t == "M" else ()        # () = empty list; for points () becomes (NaN, NaN)
 
 
@@ -64,8 +77,8 @@ def build(kind, Ln, pos, filling):
     vi = 0
     for i in range(Ln):
         if i in pos:
-            t = types[0] if filling == 0 else types[(pos.index(i) + 1) % 2]
-            elems.append(inert_elem(t))
+            t = types[0] if filling == 0 else (types + ("I",))[(pos.index(i) + 1 + Ln) % 3]
+            elems.append(inert_elem(t, kind))
             ids.append(100 + i)
         else:
             elems.append(BASE[kind][vi])
@@ -89,7 +102,7 @@ def check_frame(col, scratch, kind, elems, ids, label, dask_too=True, deep=True,
     valid_pos = [i for i, r in enumerate(ids) if r < 100]
     inert_pos = [i for i, r in enumerate(ids) if r >= 100]
     missing_pos = [i for i in inert_pos if elems[i] is None]
-    case = {"kind": kind, "ids": ids, "inert": ["M" if elems[i] is None else "E" for i in inert_pos], "label": label}
+    case = {"kind": kind, "ids": ids, "inert": ["M" if elems[i] is None else ("E" if elems[i] == () else "I") for i in inert_pos], "label": label}
     if pre:
         # the array under test is the slice [len(pre):] of a longer array (non-zero buffer / bitmap offsets)
         arr = L.make_array(kind, list(pre) + list(elems), "float64")[len(pre):]
@@ -311,9 +324,9 @@ def run(ctx):
         if filling == "special":
             types = INERT_TYPES.get(kind, INERT_TYPES["default"])
             # all rows inert; a single inert row; inert rows only at both ends of a longer array
-            for t in types:
-                check_frame(col, scratch, kind, [inert_elem(t)] * 3, [100, 101, 102], f"all_inert:{t}")
-                check_frame(col, scratch, kind, [inert_elem(t)], [100], f"single_inert:{t}", deep=False)
+            for t in types + ("I",):
+                check_frame(col, scratch, kind, [inert_elem(t, kind)] * 3, [100, 101, 102], f"all_inert:{t}")
+                check_frame(col, scratch, kind, [inert_elem(t, kind)], [100], f"single_inert:{t}", deep=False)
             el = [None, ()] + BASE[kind] + BASE[kind][::-1] + [(), None]
             ids = [100, 101, 0, 1, 2, 3, 4, 5, 106, 107]
             # (ids 3..5 are valid duplicates of the base elements)
@@ -323,7 +336,7 @@ def run(ctx):
             el = [base3[i % 3] for i in range(20)]
             ids = list(range(20))
             for k, i in enumerate((1, 7, 8, 10, 15, 18)):
-                el[i] = inert_elem(types[k % 2])
+                el[i] = inert_elem((types + ("I",))[k % 3], kind)
                 ids[i] = 100 + i
             check_frame(col, scratch, kind, el, ids, "long20", deep=False)
             for off in (8, 16):
@@ -348,7 +361,7 @@ def run(ctx):
 def replay(ctx, case):
     col = core.Collector()
     kind, ids = case["kind"], case["ids"]
-    types = {"M": None, "E": ()}
+    types = {"M": None, "E": (), "I": INF_ELEM[kind]}
     it = iter(case["inert"])
     elems = []
     seq = BASE[kind] + BASE[kind][::-1]
